@@ -193,6 +193,14 @@ func Gen(prop, tier string, seed, run uint64) Plan {
 		cfg.MaxConvs = 8 + r.IntN(24)
 		cfg.MaxFiles = 3 + r.IntN(7)
 	}
+	if (prop == "C07" || prop == "C10" || prop == "C13" || prop == "C12" || prop == "C05") && r.IntN(3) == 0 {
+		// merge-heavy: many short conversations, most of them late, cut into many
+		// files — every new index file holds more streams than the ones before
+		// it, so merges cascade (merged files are merged again)
+		cfg.LateStarts = true
+		cfg.MaxConvs = 8 + r.IntN(10)
+		cfg.MaxFiles = 4 + r.IntN(4)
+	}
 	cfg.MaxPayload = 20_000
 	cfg.MaxMsgs = 5
 	cfg.BigMsgs = false
